@@ -77,6 +77,16 @@ def corpus_defs(tier):
         _mc({'FLen': 6, 'MaxBuf': 4, 'MaxIntr': 2, 'SDev': '{}'}, module='MuxideSink', spec='SSpec',
             invariants=('PrefixAlways', 'ErrIffFailed', 'ShortWritesHarmless'), properties=('SilentAfterFailure',)),
     ], rand=[dict(gen='sink_calls', n=0, rel=None, facets=F_ST)] + ([dict(gen='sink_bytes', n=0, rel=None, facets=F_ST)]))
+    # --- fn: exhaustive byte strings over start-code-relevant alphabets through the pure functions --
+    d['fn14'] = dict(trace='TraceFn', kind='fnt', runs=[
+        dict(alpha=[0, 1, 2, 3, 255], maxlen=7 if q else 9, cfg=False),
+    ])
+    d['fncfg'] = dict(trace='TraceFn', kind='fnt', runs=[
+        dict(alpha=[0, 1, 0x67, 0x68, 0x65], maxlen=6 if q else 8, cfg=True),
+        dict(alpha=[0, 1, 0x40, 0x42, 0x44, 0x26], maxlen=5 if q else 7, cfg=True),
+    ])
+    # --- adts: header field combinations x buffer lengths, recovered from finished files ---------
+    d['adts'] = dict(trace='TraceMuxide', rand=[dict(gen='adts', n=0, rel='none', facets={'bytes': True, 'timing': False, 'tree': False, 'raw': False})])
     return d
 
 
@@ -98,11 +108,51 @@ def _abbrev(line):
     return o
 
 
+def run_fnt(ctx, name, d, cdir):
+    res = {'name': name, 'errors': [], 'sigs': [], 'instances': 0, 'events': 0, 'mc_runs': [], 'samples': [], 'shards': 0,
+           'exhaustive': True, 'runs': []}
+    for k, r in enumerate(d['runs']):
+        outdir = os.path.join(cdir, 'fn_%d' % k)
+        alpha = ','.join(str(x) for x in r['alpha'])
+        hr = core.run_harness(ctx, ['fnt', '--alpha', alpha, '--maxlen', str(r['maxlen']), '--shards', '16', '--out', outdir]
+                              + (['--cfg'] if r['cfg'] else []))
+        shard_files = sorted(glob.glob(os.path.join(outdir, 'shard_*.ndjson')))
+        sigs, consumed, errors = core.run_trace_shards(ctx, d['trace'], shard_files, os.path.join(cdir, 'tv_%d' % k), parallel=8)
+        res['errors'] += errors
+        if consumed != hr.get('events', -1) and not errors:
+            res['errors'].append('events written (%s) != events consumed by TLC (%s)' % (hr.get('events'), consumed))
+        res['instances'] += hr.get('instances', 0)
+        res['events'] += consumed
+        res['shards'] += len(shard_files)
+        res['runs'].append({'alphabet': r['alpha'], 'maxlen': r['maxlen'], 'strings': hr.get('instances', 0), 'config_extraction': r['cfg']})
+        seen = {}
+        for s in sigs:
+            kk = tuple(s['sig'])
+            seen[kk] = seen.get(kk, 0) + 1
+            e = {'sig': s['sig'], 'inst': s['inst'], 'ev': s['ev'], 'module': d['trace']}
+            if seen[kk] <= 2:
+                e['line'] = {'fn': True, 'alpha': r['alpha'], 'k': s['inst'], 'cfg': r['cfg']}
+            res['sigs'].append(e)
+        res['samples'].append({'alphabet': r['alpha'], 'maxlen': r['maxlen'], 'example_input': r['alpha'][:1] * 2 + r['alpha'][1:2] + r['alpha'][2:3]})
+        shutil.rmtree(outdir, ignore_errors=True)
+        shutil.rmtree(os.path.join(cdir, 'tv_%d' % k), ignore_errors=True)
+    # every enumerated string is a distinct case; non-trivial = contains a start code: count measured by TLC is not
+    # available here, so count conservatively the strings of length >= 3 (the shortest start code)
+    nt = 0
+    for r in d['runs']:
+        b = len(r['alpha'])
+        nt += sum(b ** L for L in range(3, r['maxlen'] + 1))
+    res['nontrivial'] = {'*': nt}
+    return res
+
+
 def run(ctx, name, cdir):
     defs = corpus_defs(ctx.tier)
     if name not in defs:
         raise core.ToolError('unknown corpus ' + name)
     d = defs[name]
+    if d.get('kind') == 'fnt':
+        return run_fnt(ctx, name, d, cdir)
     lines = []
     res = {'name': name, 'mc_runs': [], 'mc_states': 0, 'mc_generated': 0, 'behaviours': 0, 'random_instances': 0,
            'errors': []}
@@ -154,6 +204,14 @@ def run_lines(ctx, name, lines, cdir, trace=None, harness_cmd=None, inst_div=Non
     if inst_div is None:
         inst_div = defs[name].get('inst_div', 8)
     res = {'errors': []}
+    if lines and lines[0].get('fn'):
+        ln = lines[0]
+        outdir = os.path.join(cdir, 'trace')
+        hr = core.run_harness(ctx, ['fnone', '--alpha', ','.join(map(str, ln['alpha'])), '--k', str(ln['k']), '--out', outdir]
+                              + (['--cfg'] if ln.get('cfg') else []))
+        sigs, consumed, errors = core.run_trace_shards(ctx, trace, sorted(glob.glob(os.path.join(outdir, 'shard_*.ndjson'))), os.path.join(cdir, 'tv'))
+        return {'errors': errors, 'sigs': [{'sig': s['sig'], 'inst': s['inst'], 'ev': s['ev'], 'module': trace, 'line': ln} for s in sigs],
+                'instances': 1, 'events': consumed}
     inp = os.path.join(cdir, 'input.ndjson')
     with open(inp, 'w') as f:
         for o in lines:
